@@ -94,7 +94,7 @@ func (s *cpStats) IncCounter(name string, tags map[string]string, value int64) {
 	}
 	s.mu.Unlock()
 }
-func (s *cpStats) UpdateGauge(name string, tags map[string]string, value int64)      {}
+func (s *cpStats) UpdateGauge(name string, tags map[string]string, value int64)     {}
 func (s *cpStats) RecordTimer(name string, tags map[string]string, d time.Duration) {}
 
 // ---- relay host forwarding every call to one destination ----
@@ -309,21 +309,21 @@ func runCancelCase(c *cpCase, T time.Duration, asyncCancel bool) (obs []int64, f
 	deadline, _ := ctx.Deadline()
 
 	var (
-		call        *tchannel.OutboundCall
-		w3          tchannel.ArgWriter
-		r3          tchannel.ArgReader
-		cres        int64 = -1
-		begun       bool
-		reqClosed   bool
-		reqSent     int
-		cancelled   bool
-		deadlineHit bool
-		pathBroken  bool // the caller's frames can no longer reach the server
-		hframes     []bool
-		nread       int
+		call               *tchannel.OutboundCall
+		w3                 tchannel.ArgWriter
+		r3                 tchannel.ArgReader
+		cres               int64 = -1
+		begun              bool
+		reqClosed          bool
+		reqSent            int
+		cancelled          bool
+		deadlineHit        bool
+		pathBroken         bool // the caller's frames can no longer reach the server
+		hframes            []bool
+		nread              int
 		pendingAsyncCancel bool
-		pastDeadline bool // the deadline instant has passed (whatever state the context was in)
-		chunk       = make([]byte, cpChunk)
+		pastDeadline       bool // the deadline instant has passed (whatever state the context was in)
+		chunk              = make([]byte, cpChunk)
 	)
 	otherCause := func() bool { return facts.deadlinePassed || facts.completed || facts.blackholed || facts.connFailed }
 	handlerStarted := func(wait time.Duration) bool {
